@@ -5,3 +5,4 @@ INPUTS = [('universe/u_inputs.cc', [])]
 ATOMS = [('universe/u_atoms.cc', ['VU_PART=%d' % i]) for i in range(1, 4)]
 EQUIV = [('universe/u_equiv.cc', ['VU_PART=%d' % i]) for i in range(1, 5)]
 TRAITS = [('universe/u_traits.cc', ['VU_PART=%d' % i]) for i in range(1, 5)]
+ALL = [('universe/u_all.cc', [])]
